@@ -37,7 +37,8 @@ NA = XlError('#N/A')
 
 class Operand(Token):
     def ast(self, tokens, stack, builder):
-        if tokens and isinstance(tokens[-1], Operand):
+        if tokens and (isinstance(tokens[-1], Operand) or
+                       tokens[-1].name == '%'):
             raise TokenError()
         super(Operand, self).ast(tokens, stack, builder)
         builder.append(self)
